@@ -305,6 +305,7 @@ func runCheck(prop, tier string, seed int, update bool, overlay map[string][]byt
 	known := loadKnownFindings()
 	var real []violation
 	var knownLines []string
+	var knownObls []string
 	for _, v := range viols {
 		matched := false
 		if v.obl != nil {
@@ -326,6 +327,11 @@ func runCheck(prop, tier string, seed int, update bool, overlay map[string][]byt
 		}
 		if !matched {
 			real = append(real, v)
+		} else {
+			// an obligation listed as a known finding is reported on its own line and is not
+			// counted among the obligations this run claims to have discharged
+			total--
+			knownObls = append(knownObls, v.obl.Name)
 		}
 	}
 	if selftest {
@@ -387,14 +393,15 @@ func runCheck(prop, tier string, seed int, update bool, overlay map[string][]byt
 	var as []string
 	as = append(as,
 		"machine integers are modelled exactly as bit-vectors; nothing is treated as a mathematical integer",
-		"slice headers satisfy 0 <= len <= cap <= 2^48 and pointers are below 2^48 (amd64 user address space)",
+		"slice headers satisfy 0 <= len <= cap <= 2^47 and offsets are below 2^47 (amd64 user address space); make() panics above 2^48 bytes",
+		"memory is a set of disjoint regions (one per allocation); regions allocated during a call differ from all pre-existing ones; distinct slice parameters lie in distinct regions unless the contract says mayalias",
 		"typed memory: distinct element types never alias (no unsafe reinterpretation other than the modelled byte reads)",
 		"no interleaving semantics: functions are verified sequentially; lock discipline is taken from the code's comments",
 		"termination is not proved unless a decreases clause is listed")
 	for a := range assumed {
 		as = append(as, a)
 	}
-	sort.Strings(as[5:])
+	sort.Strings(as[6:])
 	var notDecided string
 	if nd, ok := notDecidedText[prop]; ok {
 		notDecided = nd
@@ -415,6 +422,7 @@ func runCheck(prop, tier string, seed int, update bool, overlay map[string][]byt
 		"unrolled_loops_with_unwinding_assertion": unrolled,
 		"bounded":                  []string{},
 		"known_findings_reported":  knownLines,
+		"known_finding_obligations_not_counted": knownObls,
 		"violation_lines":          violLines,
 		"not_decided":              notDecided,
 		"packages":                 dirs,
